@@ -196,6 +196,61 @@ theorem chain_complete (a : Nat) (hs : List Nat) (x : Nat) (hasc : Ascending (a 
   · exact chain_covers_below a hs a x hasc (Nat.le_refl _) h
   · exact chain_covers_above a hs a x hasc (Nat.le_refl _) (by omega) (fun h' => hn (List.mem_cons_of_mem _ h'))
 
+theorem chain_cover_outside (first : Nat) (r : List Nat) (b x : Nat) (hasc : Ascending (b :: r)) (hf : first ≤ b)
+    (q : Nat × Nat) (hq : q ∈ chainPairs first (b :: r)) (hc : nsec3Cover true q.1 q.2 x = true) :
+    b < x ∨ x < first := by
+  induction r generalizing b with
+  | nil =>
+    simp only [chainPairs, List.mem_singleton] at hq
+    subst hq
+    rw [cover_iff] at hc
+    have h := hc.2
+    unfold strictlyBetweenCircular at h
+    by_cases h1 : b < first
+    · omega
+    · by_cases h2 : first < b
+      · simp only [h1, h2, ↓reduceIte] at h; omega
+      · simp only [h1, h2, ↓reduceIte] at h; omega
+  | cons c r ih =>
+    obtain ⟨hbc, hasc'⟩ := hasc
+    simp only [chainPairs, List.mem_cons] at hq
+    rcases hq with e | e
+    · subst e
+      rw [cover_iff] at hc
+      have h := hc.2
+      unfold strictlyBetweenCircular at h
+      simp only [hbc, ↓reduceIte] at h; omega
+    · have := ih c hasc' (by omega) e
+      omega
+
+/-- **chain_cover_unique**: … and by one record only -/
+theorem chain_cover_unique (first : Nat) (hs : List Nat) (a x : Nat) (hasc : Ascending (a :: hs)) (hf : first ≤ a)
+    (p q : Nat × Nat) (hp : p ∈ chainPairs first (a :: hs)) (hq : q ∈ chainPairs first (a :: hs))
+    (hcp : nsec3Cover true p.1 p.2 x = true) (hcq : nsec3Cover true q.1 q.2 x = true) : p = q := by
+  induction hs generalizing a with
+  | nil =>
+    simp only [chainPairs, List.mem_singleton] at hp hq
+    rw [hp, hq]
+  | cons b r ih =>
+    obtain ⟨hab, hasc'⟩ := hasc
+    have inner : ∀ u : Nat × Nat, u = (a, b) → nsec3Cover true u.1 u.2 x = true → a < x ∧ x < b := by
+      intro u e hc
+      subst e
+      rw [cover_iff] at hc
+      have h := hc.2
+      unfold strictlyBetweenCircular at h
+      simp only [hab, ↓reduceIte] at h; exact h
+    simp only [chainPairs, List.mem_cons] at hp hq
+    rcases hp with ep | ep <;> rcases hq with eq | eq
+    · rw [ep, eq]
+    · have h1 := inner p ep hcp
+      have h2 := chain_cover_outside first r b x hasc' (by omega) q eq hcq
+      omega
+    · have h1 := inner q eq hcq
+      have h2 := chain_cover_outside first r b x hasc' (by omega) p ep hcp
+      omega
+    · exact ih b hasc' (by omega) ep eq
+
 example : Ascending [3, 7, 20] ∧ chainPairs 3 [3, 7, 20] = [(3, 7), (7, 20), (20, 3)] := by
   simp [Ascending, chainPairs]
 
